@@ -1597,6 +1597,10 @@ class Data(BaseCartesianData):
         # Remove components that don't have a match in new data
         for cname in old_labels - new_labels:
             cid = self.find_component_id(cname)
+            if cid in self.coordinate_components:
+                # Pixel and world coordinate components follow the shape and
+                # coords (see below), whatever they are called
+                continue
             self.remove_component(cid)
 
         # Update shape
